@@ -35,6 +35,9 @@ CondClauses(r) ==
     <<"VectorisedEqualsPointwise", r.vecrel <= CondTolE15>>,
     <<"ChainedSameGiven", r.parrel <= CondTolE15>>,
     <<"FixedSameForAllGiven", r.fixedok>>,
+    (* given is "float or array_like": the vector of conditioning values as list, tuple or pandas   *)
+    (* Series gives, bit for bit, the result (seeded sample) of the same values as ndarray           *)
+    <<"GivenKindsAgree", r.kindsame>>,
     (* draw_sample(n, given): n rows with one variate per conditioning value - shape (n,) for a    *)
     (* scalar, (n, len(given)) for a vector given (part of shapeok) - and no variate repeated, also  *)
     (* when every parameter value is constant in given (ParamRouting!OneResultPerGiven)              *)
